@@ -22,6 +22,13 @@ Next ==
             /\ LET ds == IF ReconstituteStutters(e.digest) THEN {}
                          ELSE { <<"observation changed by serialise + reconstitute (" \o e.format \o ", u" \o ToString(e.width) \o ")", e.diff>> } IN
                Report(e.id, ds) /\ ndev' = ndev + Cardinality(ds)
+       [] e.ev = "entry" ->
+            \* the same configuration through build() and through the deprecated process_file(): same
+            \* outcome, same module
+            /\ LET ds == IF e.build = e.process_file THEN {}
+                         ELSE { <<"CTParserBuilder::process_file (deprecated entry point) does not do what build() does with the same settings", <<e.build, e.process_file>> >> } IN
+               Report(e.id, ds) /\ ndev' = ndev + Cardinality(ds)
+            /\ UNCHANGED pvars2
        [] e.ev = "tokmap" ->
             \* one run of CTTokenMapBuilder: what it generated against TokenMap.tla
             /\ LET ds == TM!TokMapDevs(e) IN Report(e.id, ds) /\ ndev' = ndev + Cardinality(ds)
